@@ -231,6 +231,84 @@ func (e *Engine) moduleScan() []*Obligation {
 	sort.Strings(tnames)
 	for _, tn := range tnames {
 		tc := e.cs.Types[tn]
+		for _, oc := range tc.Flags["once"] {
+			parts := strings.SplitN(oc, ":", 2)
+			if len(parts) != 2 {
+				continue
+			}
+			fld := strings.TrimSpace(parts[1])
+			closers := map[string]bool{}
+			for _, c := range tc.Flags["closers"] {
+				closers[c] = true
+			}
+			var bad []string
+			for name, fn := range e.funcs {
+				for _, b := range fn.Blocks {
+					for _, in := range b.Instrs {
+						call, ok := in.(*ssa.Call)
+						if !ok {
+							continue
+						}
+						bi, ok := call.Call.Value.(*ssa.Builtin)
+						if !ok || bi.Name() != "close" {
+							continue
+						}
+						u, ok := call.Call.Args[0].(*ssa.UnOp)
+						if !ok {
+							continue
+						}
+						fa, ok := u.X.(*ssa.FieldAddr)
+						if !ok || structKey(fa.X.Type()) != tn || structOf(fa.X.Type()).Field(fa.Field).Name() != fld {
+							continue
+						}
+						if _, _, protected := e.onceProtectedClose(in, call.Call.Args[0]); protected || closers[name] {
+							continue
+						}
+						bad = append(bad, name+" ("+e.pos(in.Pos())+")")
+					}
+				}
+			}
+			sort.Strings(bad)
+			goal, st := "true", "unsat"
+			text := "channel " + tn + "." + fld + " is closed only inside its sync.Once (or by the listed closers " + strings.Join(tc.Flags["closers"], ",") + ")"
+			if len(bad) > 0 {
+				goal, st = "false", "sat"
+				text += "; other close sites: " + strings.Join(bad, "; ")
+			}
+			out = append(out, &Obligation{Name: "module/once/" + tn + "." + fld, Kind: "close-once", Func: "module", Tags: tc.Tags, Text: text, Goal: goal, Pc: "true", Site: true,
+				Result: &SolverResult{Status: st, Solver: "ssa-scan"}})
+		}
+		for _, fld := range tc.Flags["never_closed"] {
+			var bad []string
+			for name, fn := range e.funcs {
+				for _, b := range fn.Blocks {
+					for _, in := range b.Instrs {
+						call, ok := in.(*ssa.Call)
+						if !ok {
+							continue
+						}
+						bi, ok := call.Call.Value.(*ssa.Builtin)
+						if !ok || bi.Name() != "close" {
+							continue
+						}
+						if u, ok := call.Call.Args[0].(*ssa.UnOp); ok {
+							if fa, ok := u.X.(*ssa.FieldAddr); ok && structKey(fa.X.Type()) == tn && structOf(fa.X.Type()).Field(fa.Field).Name() == fld {
+								bad = append(bad, name+" ("+e.pos(in.Pos())+")")
+							}
+						}
+					}
+				}
+			}
+			sort.Strings(bad)
+			goal, st := "true", "unsat"
+			text := "channel " + tn + "." + fld + " is never closed in the module"
+			if len(bad) > 0 {
+				goal, st = "false", "sat"
+				text += "; close sites: " + strings.Join(bad, "; ")
+			}
+			out = append(out, &Obligation{Name: "module/never-closed/" + tn + "." + fld, Kind: "close-once", Func: "module", Tags: tc.Tags, Text: text, Goal: goal, Pc: "true", Site: true,
+				Result: &SolverResult{Status: st, Solver: "ssa-scan"}})
+		}
 		imm := tc.Flags["immutable"]
 		if len(imm) == 0 {
 			continue
@@ -296,4 +374,79 @@ func (e *Engine) moduleScan() []*Obligation {
 		}
 	}
 	return out
+}
+
+// onceProtectedClose recognises close(x.f) executed inside a function literal that is passed
+// directly to x.o.Do, where the type contract of x's struct declares `once o: f`.
+func (e *Engine) onceProtectedClose(ins ssa.Instruction, chv ssa.Value) (typeName, field string, ok bool) {
+	fn := ins.Parent()
+	if fn == nil || fn.Parent() == nil {
+		return
+	}
+	// channel operand: load of a field
+	u, isU := chv.(*ssa.UnOp)
+	if !isU {
+		return
+	}
+	fa, isFA := u.X.(*ssa.FieldAddr)
+	if !isFA {
+		return
+	}
+	so := structOf(fa.X.Type())
+	if so == nil {
+		return
+	}
+	tn := structKey(fa.X.Type())
+	tc := e.cs.Types[tn]
+	if tc == nil {
+		return
+	}
+	fld := so.Field(fa.Field).Name()
+	onceField := ""
+	for _, oc := range tc.Flags["once"] {
+		parts := strings.SplitN(oc, ":", 2)
+		if len(parts) == 2 && strings.TrimSpace(parts[1]) == fld {
+			onceField = strings.TrimSpace(parts[0])
+		}
+	}
+	if onceField == "" {
+		return
+	}
+	// the enclosing literal must be used only as the argument of (*sync.Once).Do on field onceField
+	parent := fn.Parent()
+	for _, b := range parent.Blocks {
+		for _, in := range b.Instrs {
+			mc, isMC := in.(*ssa.MakeClosure)
+			if !isMC || mc.Fn != fn {
+				continue
+			}
+			refs := mc.Referrers()
+			if refs == nil {
+				return
+			}
+			for _, ref := range *refs {
+				call, isCall := ref.(*ssa.Call)
+				if !isCall {
+					if _, isDbg := ref.(*ssa.DebugRef); isDbg {
+						continue
+					}
+					return
+				}
+				sc := call.Call.StaticCallee()
+				if sc == nil || sc.String() != "(*sync.Once).Do" || len(call.Call.Args) != 2 {
+					return
+				}
+				ofa, isOFA := call.Call.Args[0].(*ssa.FieldAddr)
+				if !isOFA || structKey(ofa.X.Type()) != tn {
+					return
+				}
+				oso := structOf(ofa.X.Type())
+				if oso.Field(ofa.Field).Name() != onceField {
+					return
+				}
+			}
+			return tn, fld, true
+		}
+	}
+	return
 }
